@@ -113,7 +113,7 @@ class Engine:
         s.pi_rational = pi_rational
         s.side_lin = list(s.side)   # the linear subset (ranges, remainders by constants): enough to prune loop iterations, cheap to decide
         s.stats = dict(stmts=0, forks=0, merges=0, calls=0, inlined=0, modelled=0, feas_queries=0)
-        s._ipdom = {}; s._reach = {}; s._live = {}; s._lin = {}; s._linz = {}; s._keep = []; s._rpo = {}; s._loops = {}; s._vars = {}; s._size = {}; s.feas_max_size = 300; s.feas_from = 1   # prune loop iterations from this unrolling depth on
+        s._ipdom = {}; s._reach = {}; s._live = {}; s._lin = {}; s._linz = {}; s._keep = []; s._rpo = {}; s._loops = {}; s._vars = {}; s.capture = set(); s.captured = {}; s._size = {}; s.feas_max_size = 300; s.feas_from = 1   # prune loop iterations from this unrolling depth on
         s.models = []               # (compiled regex, handler)
         s.overrides = {}            # body name (alias resolved) -> handler  (summaries / oracles for crate fns)
         s.used_models = {}; s.inlined_fns = {}
@@ -238,6 +238,10 @@ class Engine:
         live, addr = s.liveness(body)
         loc = st.frames[fr].locals
         keep = set(live[bb]) | {0} | set(range(1, body.nargs + 1))
+        if body.name in s.capture:
+            for pl in body.debug.values():      # a harness wants the named variables of this function at return: keep them
+                while not isinstance(pl, Local): pl = pl.base
+                keep.add(pl.n)
         def refs_in(v, acc, depth=0):
             if isinstance(v, RefV):
                 if v.frame == fr: acc.add(v.local)
@@ -779,7 +783,15 @@ class Engine:
             else: raise Inconclusive(f'statement {stmt}')
         t = blk[-1]; s.stats['stmts'] += 1
         if isinstance(t, Goto): return [(t.target, st)]
-        if isinstance(t, Return): return [(None, st)]
+        if isinstance(t, Return):
+            if body.name in s.capture:
+                # harness asked for the values of this function's named variables at return (lemmas refer to them by their debug names)
+                vals = {}
+                for dn, pl in body.debug.items():
+                    try: vals[dn] = s.read(st, fr, pl)
+                    except Exception: pass
+                s.captured.setdefault(body.name, []).append((st.pc, vals))
+            return [(None, st)]
         if isinstance(t, Unreachable):
             s.add_obligation('unreachable', st.pcz(), 'unreachable', f'{body.name} bb{bb}'); return []
         if isinstance(t, Drop): return [(t.target, st)]
